@@ -60,7 +60,7 @@ Consistent(g) ==
     /\ DOMAIN g.H = g.R.st
     /\ \A h \in DOMAIN g.H : g.H[h].h = h
     /\ g.X = {<<g.H[h].tag, h>> : h \in DOMAIN g.H}
-    /\ \A x, y \in g.X : x[1] = y[1] => x[2] = y[2]
+    /\ Cardinality({x[1] : x \in g.X}) = Cardinality(g.X)          \* one height per hash
     /\ g.R.sa \subseteq g.R.st /\ g.R.pr \cap g.R.st = {}
     /\ DOMAIN g.M \subseteq g.R.st
 
